@@ -2,8 +2,10 @@ package main
 
 import (
 	"fmt"
+	"go/token"
 	"go/types"
 	"os"
+	"regexp"
 	"runtime/debug"
 	"sort"
 	"strings"
@@ -80,7 +82,12 @@ func hasProp(ps []string, p string) bool {
 	return false
 }
 
-func (en *Engine) RunUnit(key string) (res *UnitResult) {
+func (en *Engine) RunUnit(key string) (res *UnitResult) { return en.runUnit(key, nil) }
+
+// runUnit generates the unit's obligations; alias rebinds contract names that no longer name a local to other locals
+// of the function (every obligation, including initiation and preservation of the invariants, is generated under that
+// binding, so a wrong binding can only make obligations fail).
+func (en *Engine) runUnit(key string, alias map[string]string) (res *UnitResult) {
 	fc := en.CS.Funcs[key]
 	res = &UnitResult{Name: shortName(key), Full: key, Kind: "func", Props: fc.Props, File: fc.File, Bounded: fc.Bounded, Replay: fc.Replay, Pkg: fc.Pkg}
 	defer func() {
@@ -115,6 +122,7 @@ func (en *Engine) RunUnit(key string) (res *UnitResult) {
 		return
 	}
 	e := en.newExec(fn, fc)
+	e.alias = alias
 	e.Run()
 	// an atcall clause whose callee is never called on any path would be vacuous: the callee name is wrong or the
 	// code no longer makes the call
@@ -593,4 +601,105 @@ func renameSyms(s string, ren map[string]string) string {
 		}
 	}
 	return b.String()
+}
+
+
+var missingNameRx = regexp.MustCompile(`name "([A-Za-z_][A-Za-z_0-9]*)" does not bind`)
+
+// missingNames: the contract names of a unit that no longer bind, or nil if the unit has any other binding failure.
+func missingNames(u *UnitResult, fc *FuncContract) []string {
+	msgs := append([]string{}, u.Undecided...)
+	if u.Error != "" {
+		msgs = append(msgs, u.Error)
+	}
+	seen := map[string]bool{}
+	var out []string
+	for _, m := range msgs {
+		mm := missingNameRx.FindStringSubmatch(m)
+		if mm == nil && strings.Contains(m, "idx used outside a range loop") { // a range loop rewritten as an index loop: idx may be its counter
+			mm = []string{"", "idx"}
+		}
+		if mm == nil {
+			return nil
+		}
+		ghost := false
+		if fc != nil {
+			for _, g := range fc.GhostRets { // a ghost result that does not bind is a consequence of a missing local in its definition
+				if g.Name == mm[1] {
+					ghost = true
+				}
+			}
+		}
+		if !seen[mm[1]] && !ghost {
+			seen[mm[1]] = true
+			out = append(out, mm[1])
+		}
+	}
+	return out
+}
+
+// rebindCandidates: source names of the function's locals that the contract does not mention.
+func (en *Engine) rebindCandidates(key string, includeMentioned bool) []string {
+	fn := en.Prog.Func(key)
+	fc := en.CS.Funcs[key]
+	if fn == nil || fc == nil {
+		return nil
+	}
+	var text []string
+	add := func(cs []Clause) {
+		for _, c := range cs {
+			text = append(text, c.Src)
+		}
+	}
+	add(fc.Requires)
+	add(fc.Ensures)
+	add(fc.Abstracts)
+	add(fc.Watch)
+	add(fc.Assume)
+	add(fc.Given)
+	add(fc.Assigns)
+	for _, l := range fc.Loops {
+		add(l)
+	}
+	for _, l := range fc.AtCall {
+		add(l)
+	}
+	for _, g := range fc.GhostRets {
+		text = append(text, g.Cl.Src)
+	}
+	all := strings.Join(text, "\n")
+	names := map[string]bool{}
+	for _, b := range fn.Blocks {
+		for _, ins := range b.Instrs {
+			switch x := ins.(type) {
+			case *ssa.DebugRef:
+				if v, ok := x.Object().(*types.Var); ok && !v.IsField() {
+					names[v.Name()] = true
+				}
+			case *ssa.Phi:
+				if x.Comment != "" {
+					names[x.Comment] = true
+				}
+			case *ssa.Alloc:
+				if x.Comment != "" {
+					names[x.Comment] = true
+				}
+			}
+		}
+	}
+	for _, p := range fn.Params {
+		delete(names, p.Name())
+	}
+	var out []string
+	for n := range names {
+		if n == "_" || n == "rangeindex" || n == "varargs" || !token.IsIdentifier(n) {
+			continue
+		}
+		if !includeMentioned && regexp.MustCompile(`\b` + regexp.QuoteMeta(n) + `\b`).MatchString(all) {
+			continue
+		}
+		out = append(out, n)
+	}
+	sort.Strings(out)
+	return out
 }
